@@ -1,5 +1,6 @@
 (* C10/Run.v — evaluation of the model and of the specification on harness cases. *)
-From Relic Require Import Base.Prelude Base.Val Generated.C10_gen C10.Model.
+From Coq Require Import String.
+From Relic Require Import Base.Prelude Base.Val Generated.C10_gen C10.ChainIR C10.Model C10.Chain.
 
 (* the digest used for evaluation: algorithm tag followed by the data (injective; see Properties.hsym_injective) *)
 Definition HR := Hsym.
@@ -75,9 +76,32 @@ Definition run_verify (v : val) : val :=
   VL [VZ (res_kind r); VZ (match r with Ok _ => 0 | Err e => e | Panic p => p end);
       of_bool (accepted HR now s); of_bool (spec_accept HR now s)].
 
-(* entry point: [0 client] [1 sign] [2 verify] *)
+(* ---- verification histories.
+   certificate [id nb na issuer [ekus]] ; signature object [leaf [intermediates]] ;
+   step [pool_id [root ids] [extra certs] usage now sig has_cs [tsa_sig time]]
+   [steps] -> per step [kind code fresh_kind fresh_code spec] : verdict in the history (state threaded through), verdict of
+   the same verification done first in a fresh process, the specification's verdict *)
+Definition mk_xcert (v : val) : xcert :=
+  mkX (vz (vnth 0 v)) (vz (vnth 1 v)) (vz (vnth 2 v)) (vz (vnth 3 v)) (map vz (vl (vnth 4 v))).
+Definition mk_sobj (v : val) : sobj := mkSobj (mk_xcert (vnth 0 v)) (map mk_xcert (vl (vnth 1 v))).
+Definition mk_vcall (v : val) : vcall :=
+  mkCall (mkPool (vz (vnth 0 v)) (map vz (vl (vnth 1 v)))) (map mk_xcert (vl (vnth 2 v))) (vz (vnth 3 v)) (vz (vnth 4 v))
+    (mk_sobj (vnth 5 v))
+    (if vbool (vnth 6 v) then Some (mkCs (mk_sobj (vnth 0 (vnth 7 v))) (vz (vnth 1 (vnth 7 v)))) else None)
+    (fun _ => false).
+Definition res_code_u (r : result unit) : Z := match r with Ok _ => 0 | Err e => e | Panic p => p end.
+Definition run_seq (v : val) : val :=
+  let calls := map mk_vcall (vl v) in
+  let '(out, _) := verify_seq [] calls in
+  VL (map (fun p : result unit * vcall =>
+             let '(r, c) := p in
+             VL [VZ (res_kind r); VZ (res_code_u r); VZ (res_kind (fresh c)); VZ (res_code_u (fresh c)); of_bool (spec_chain_accept c)])
+          (combine out calls)).
+
+(* entry point: [0 client] [1 sign] [2 verify] [3 verification history] *)
 Definition run (v : val) : val :=
   let k := vz (vnth 0 v) in
   if k =? 0 then run_client (vnth 1 v)
   else if k =? 1 then run_sign (vnth 1 v)
-  else run_verify (vnth 1 v).
+  else if k =? 2 then run_verify (vnth 1 v)
+  else run_seq (vnth 1 v).
